@@ -26,6 +26,7 @@ def _names(e):
 def run(ctx):
     from . import simrules
     simrules.run_records_rule(ctx, 'C18.k', floor=10)
+    simrules.unsigned_digit_arrays_rule(ctx, 'C18.n')
     _int64_guard_rule(ctx, ctx.repo)
     from . import c17 as _c17
     _c17._rows_from_per_shot_sequence(ctx, repo := ctx.repo, rid='C18.l')
